@@ -12,7 +12,7 @@ PROPS['C11'] = dict(
     input_search=True,
     bounded_probe=dict(label='clean/word_boundaries/remove/full(string-level)', file='src/text.rs', line=14,
                        what='the statement at STRING level against std split_whitespace and an independent character segmentation: clean == words joined by single spaces, no leading/trailing/consecutive/non-space whitespace, non-whitespace characters preserved, idempotent; word_boundaries == character ranges of the words; remove / full',
-                       bound='texts of at most 4 pieces from {a, b, space, tab, U+00A0, U+3000, U+200B, U+000B, CRLF, U+00E4, e+U+0301}; grapheme mode: unmixed clusters'),
+                       bound='texts of at most 4 pieces from {a, b, space, tab, U+00A0, U+3000, U+200B, U+000B, CRLF, U+00E4, e+U+0301} and from {two regional indicators, Hangul L and V jamo, space, newline, a}; grapheme mode: unmixed clusters'),
 )
 
 PROPS['C02'] = dict(
@@ -67,7 +67,7 @@ PROPS['C10'] = dict(
     input_search=True,
     bounded_probe=dict(label='operations/repair(string-level)', file='src/whitespace.rs', line=70,
                        what='the statement at STRING level with an independent character segmentation (unicode_segmentation / code points), i.e. including what the CharString model assumes: round trip for clean pairs, repair changes only whitespace for every operation sequence, all-Keep identity, length mismatch is an error',
-                       bound='texts of at most 5 pieces from {a, b, space, U+00E4, e+U+0301, U+3000} (grapheme mode: unmixed clusters, as the quantifier says); all clean pairs with equal content; every operation sequence for texts of at most 4 characters plus two wrong lengths'),
+                       bound='texts of at most 5 pieces from {a, b, space, U+00E4, e+U+0301, U+3000} and of at most 4 from {a, CRLF, space, b} (grapheme mode: unmixed clusters, as the quantifier says); all clean pairs with equal content; every operation sequence for texts of at most 4 characters plus two wrong lengths'),
 )
 
 PROPS['C14'] = dict(
@@ -99,7 +99,7 @@ PROPS['C18'] = dict(
     input_search=True,
     bounded_probe=dict(label='match_words/edited_words(public-API)', file='src/text.rs', line=155,
                        what='the whole statement through match_words / edited_words against a reference LCS (includes str_match_fn and the splitter): strictly increasing pairs of equal words, LCS length, word counts, edited words == complement',
-                       bound='pairs of sentences of at most 4 words from {a, A, b, ab, U+0130, i+U+0307} (all short pairs, every 53rd long one; also with a non-ASCII whitespace as first separator) x ignore_case; the oracle accepts ASCII or Unicode word splitting, the same for both texts'),
+                       bound='pairs of sentences of at most 4 words from {a, A, b, ab, U+0130, i+U+0307, a Greek word ending in capital sigma and its lower-case form} (all pairs of sentences of at most 2 words, every 1499th longer pair; also with a non-ASCII whitespace as first separator) x ignore_case; the oracle accepts ASCII or Unicode word splitting, the same for both texts'),
 )
 
 PROPS['C12'] = dict(
